@@ -9,7 +9,8 @@
 //!                  4 a UDP round trip on the worker's runtime, 5 sleeps 40 ms (to be cancelled)
 //!   join_mode 0: join as soon as the dispatching threads are done; 1: first wait for every
 //!             receiver; 2: sleep 3 ms first
-//!   broken_driver: the workers' proactor cannot poll -> every worker panics when it goes idle
+//!   broken_driver: the workers' proactor cannot poll -> a worker panics when it goes idle
+//!             (receivers are then not awaited before join: queued closures stay queued until join)
 //! out: [n_events; (kind a b)*; n_closures; (outcome starts workers_seen)*; join; W gauges]
 //!   events: 1 id ok(0/1) dispatch returned; 2 id worker: first poll; 3 id ok: end (0 = panics);
 //!           4 join called; 5 p: join returned (1 = panic re-raised)
@@ -228,7 +229,7 @@ fn run(case: &[u64]) -> Result<Vec<u64>, BadCase> {
                 }
             }
         };
-        if join_mode == 1 {
+        if join_mode == 1 && !broken {
             for (h, rx) in rxs.iter_mut() {
                 if let Some(rx) = rx.take() {
                     outcomes[*h as usize] = collect(*h, compio_runtime::time::timeout(WATCHDOG, rx).await);
